@@ -49,7 +49,8 @@ def run(ctx):
     G.ORDERED_SETS = True
     ctx.count("spec_selfcheck_cases", S.selfcheck() + PK.selfcheck())
     ctx.rule = ("case = (model: 1-3 partition-key columns drawn from 18 scalar column classes + Tuple + UserDefinedType, 0-2 clustering keys, "
-                "value columns, shuffled declaration order, db_field renames, optional abstract base with overridden key column, "
+                "value columns, shuffled declaration order, db_field renames, optional model hierarchy (abstract or concrete base; subclass "
+                "re-declaring inherited key columns with the same or another column class, adding key/value columns), "
                 "__compute_routing_key__ on/off; operation in {create, save, save-with-null, instance update, instance delete, get, first, "
                 "list+limit/allow_filtering, chained filters in any keyword order, queryset update, queryset delete, ttl create | partial "
                 "key, IN on a key column, clustering-only filter, unfiltered scan}; key values from the boundary pools); distinct by "
@@ -88,6 +89,13 @@ def run(ctx):
             attrs = dict((fn, make_column(ft)) for fn, ft in t[3])
             return C.UserDefinedType(type(t[2], (UT.UserType,), attrs), **kw)
         raise AssertionError(t)
+
+    def db_type_name(t):
+        if t[0] in SCALAR_COLS:
+            return t[0]
+        if t[0] == 'tuple':
+            return 'tuple<%s>' % ', '.join(db_type_name(x) for x in t[1:])
+        return 'frozen<%s>' % t[2]
 
     def gen_scalar_pair(k):
         """(canonical, python input) for a key component"""
@@ -131,7 +139,7 @@ def run(ctx):
         nck = rng.choice([0, 1, 1, 2])
         slots = [('p', i) for i in range(npk)] + [('c', i) for i in range(nck)] + [('v', i) for i in range(rng.randint(1, 2))]
         rng.shuffle(slots)
-        sp.inherit = rng.random() < 0.2
+        sp.inherit = rng.random() < 0.35
         sp.compute = rng.random() > 0.06
         cols = []           # (attr name, kind, spec type, column)
         names = {'p': ['pa', 'pb', 'pc'], 'c': ['ca', 'cb'], 'v': ['va', 'vb']}
@@ -166,14 +174,46 @@ def run(ctx):
         attrs = {'__keyspace__': rng.choice(['ks38', 'Ks_B']), '__table_name__': 't38_%d_%d' % (ctx.worker or 0, mid)}
         if not sp.compute:
             attrs['__compute_routing_key__'] = False
+        sp.retyped = sp.added_key = sp.concrete_base = sp.redeclared = False
         if sp.inherit:
+            # a model hierarchy: the base (abstract, or concrete with a table of its own) declares the columns; the subclass may
+            # re-declare inherited partition-key columns (fresh column objects, same or ANOTHER column class, either keyword form),
+            # re-declare a non-key column, and add key / value columns of its own.  The table cqlengine creates for the subclass
+            # (and therefore the key Cassandra hashes) is made of the subclass's final columns.
             base_attrs = dict((c[0], c[3]) for c in cols)
-            base_attrs['__abstract__'] = True
+            if rng.random() < 0.6:
+                base_attrs['__abstract__'] = True
+            else:
+                sp.concrete_base = True
+                base_attrs['__keyspace__'] = attrs['__keyspace__']
+                base_attrs['__table_name__'] = 'b38_%d_%d' % (ctx.worker or 0, mid)
             base = type('B38_%d' % mid, (models.Model,), base_attrs)
-            # the subclass re-declares one partition-key column (a fresh column object, created last) and adds a value column
-            over = rng.choice([c for c in cols if c[1] == 'p'])
-            over[3] = make_column(over[2], **over[4])
-            attrs[over[0]] = over[3]
+            for c in [c for c in cols if c[1] == 'p']:
+                if rng.random() < 0.5:
+                    newt = c[2] if rng.random() < 0.3 else gen_key_type()
+                    kw = dict((a, b) for a, b in c[4].items() if a not in ('partition_key', 'primary_key'))
+                    kw[rng.choice(['partition_key', 'primary_key'])] = True
+                    sp.redeclared = True
+                    if newt != c[2]:
+                        sp.retyped = True
+                    c[2], c[4] = newt, kw
+                    c[3] = make_column(newt, **kw)
+                    attrs[c[0]] = c[3]
+            if rng.random() < 0.3:
+                c = rng.choice([c for c in cols if c[1] == 'v'])
+                c[3] = make_column(c[2], **c[4])
+                attrs[c[0]] = c[3]
+            if rng.random() < 0.25:
+                t = gen_key_type()
+                kw = {'partition_key': True}
+                cols.append(['pd', 'p', t, make_column(t, **kw), kw])
+                attrs['pd'] = cols[-1][3]
+                sp.added_key = True
+            if rng.random() < 0.2:
+                t = (rng.choice(['int', 'text', 'bigint']),)
+                kw = {'primary_key': True}
+                cols.append(['cz', 'c', t, make_column(t, **kw), kw])
+                attrs['cz'] = cols[-1][3]
             attrs['vz'] = C.Integer()
             model = type('M38_%d' % mid, (base,), attrs)
         else:
@@ -199,6 +239,12 @@ def run(ctx):
         if sorted(sp.pk) != sorted(sp.decl_pk):
             ctx.violation("table-partition-key-differs-from-model", "CREATE TABLE partition key %r, model declares %r" % (sp.pk, sp.decl_pk), {"ddl": ddl})
             return None
+        # the oracle's key types must be the types of the table (harness sanity, never a verdict)
+        for n in sp.pk:
+            c = sp.cols[n]
+            decl = '"%s" %s ' % (c[4].get('db_field') or c[0], db_type_name(c[2]))
+            if decl not in ddl:
+                raise Inconclusive("CREATE TABLE %r does not declare %r" % (ddl, decl))
         sp.ddl = ddl
         sp.keyspace = attrs['__keyspace__']
         return sp
@@ -246,7 +292,17 @@ def run(ctx):
                     ctx.count("models")
                     ctx.count("models_npk_%d" % len(sp.pk))
                     if sp.inherit:
+                        ctx.count("models_inheriting_from_a_base_model")
+                    if sp.redeclared:
                         ctx.count("models_with_overridden_key_column")
+                    if sp.retyped:
+                        ctx.count("models_with_inherited_key_column_redeclared_with_another_type")
+                    if sp.added_key:
+                        ctx.count("models_with_key_column_added_by_the_subclass")
+                    if sp.concrete_base:
+                        ctx.count("models_with_concrete_base")
+                    if sp.inherit and not sp.redeclared:
+                        ctx.count("models_inheriting_keys_without_redeclaring")
                     if not sp.compute:
                         ctx.count("models_with_routing_disabled")
                     if sp.pk != sp.decl_pk:
@@ -479,7 +535,8 @@ def run(ctx):
 
     ctx.floor_distinct = 1500 if ctx.quick else 40000
     fl = {"routing_keys_equal": 2000, "routing_keys_composite": 1000, "routing_keys_single": 300, "unrouted_statements_without_key": 300,
-          "models_with_overridden_key_column": 20, "models_npk_1": 30, "models_npk_2": 30, "models_npk_3": 30, "histories": 3}
+          "models_with_overridden_key_column": 20, "models_with_inherited_key_column_redeclared_with_another_type": 20,
+          "models_with_key_column_added_by_the_subclass": 10, "models_with_concrete_base": 10, "models_inheriting_keys_without_redeclaring": 10, "models_npk_1": 30, "models_npk_2": 30, "models_npk_3": 30, "histories": 3}
     for op in ('create', 'save', 'save_null', 'update', 'delete', 'get', 'model_get', 'first', 'list', 'chained', 'qs_update', 'qs_delete', 'ttl_create'):
         fl["routing_keys_equal:" + op] = 30
     for cname in ('Text', 'Ascii', 'Integer', 'TinyInt', 'SmallInt', 'BigInt', 'VarInt', 'DateTime', 'Date', 'Time', 'UUID', 'TimeUUID', 'Boolean',
